@@ -38,6 +38,8 @@ func init() {
 			{ID: "R03u", Floor: 1, Doc: "the sequential readers never seek backwards: no Seek(negative constant, io.SeekCurrent) in LoadIndex, Inspect, NewBlockReader, Next, SkipNext — the forward-only adapter for plain streams drops such a seek silently", Run: ruleR03u},
 			{ID: "R03x", Floor: 1, Doc: "a compact bucket built in memory is exactly width x len bytes: the buffer of a singleWidthIndex is allocated with the product of the two values stored beside it", Run: ruleR03x},
 			{ID: "R03y", Floor: 1, Doc: "the insertion index refuses no record for the length of its digest (= R11z)", Run: ruleR11z},
+			{ID: "R03z", Floor: 1, Doc: "ReadOrGenerateIndex generates the index of an index-less CARv2 over Reader.DataReader(), the payload window: offsets stay payload-relative and the walk stays bounded by DataSize", Run: ruleR03z},
+			{ID: "R03A", Floor: 1, Doc: "LoadIndex makes the end-of-payload test before every read of a section length (a CARv2 payload may hold no sections: D21)", Run: ruleR03A},
 			{ID: "R03v", Floor: 1, Doc: "the payload view index generation scans is the whole payload window (= R10d)", Run: ruleR10d},
 			{ID: "R03w", Floor: 1, Doc: "no reader type beside the audited ones stands between index generation and the bytes (= R16n)", Run: ruleR16n},
 			{ID: "R03g", Floor: 1, Doc: "InsertionIndex.GetAll offers every record with the key's digest", Run: ruleR03g},
